@@ -25,6 +25,8 @@ import (
 
 	"github.com/restic/restic/internal/data"
 	"github.com/restic/restic/internal/global"
+	"github.com/restic/restic/internal/repository/index"
+	"github.com/restic/restic/internal/repository/pack"
 	"github.com/restic/restic/internal/restic"
 )
 
@@ -422,6 +424,102 @@ func c16CliCase(c *vctx, name string, rng *vrng, conc int, big bool) error {
 	return nil
 }
 
+// ---- index-level stress: the real MasterIndex.AddPending / StorePack pair that saveBlob and the pack
+// uploader call, with spinning re-submitters of the handles of the pack that is being indexed ----
+type c16StressCur struct {
+	m  *index.MasterIndex
+	hs []restic.BlobHandle
+}
+
+type c16NullSaver struct{}
+
+func (c16NullSaver) Connections() uint { return 2 }
+func (c16NullSaver) SaveUnpacked(_ context.Context, _ restic.FileType, buf []byte) (restic.ID, error) {
+	return restic.Hash(buf), nil
+}
+
+func c16Stress(c *vctx, rng *vrng, spinners, blobsPerPack int, budget time.Duration, maxRounds int) {
+	var (
+		cur    atomic.Pointer[c16StressCur] // index and handles always change together
+		stop   atomic.Bool
+		extra  sync.Map // handle -> *atomic.Int32: 'not known' answers given to re-submitters
+		wg     sync.WaitGroup
+		mi     atomic.Pointer[index.MasterIndex]
+		rounds int
+	)
+	mi.Store(index.NewMasterIndex())
+	for sp := 0; sp < spinners; sp++ {
+		wg.Add(1)
+		go func(sp int) {
+			defer wg.Done()
+			for i := 0; !stop.Load(); i++ {
+				cu := cur.Load()
+				if cu == nil {
+					continue
+				}
+				bh := cu.hs[(i+sp)%len(cu.hs)]
+				if cu.m.AddPending(bh, 100) {
+					v, _ := extra.LoadOrStore(bh, new(atomic.Int32))
+					v.(*atomic.Int32).Add(1)
+				}
+			}
+		}(sp)
+	}
+	never := 0
+	handles := 0
+	start := time.Now()
+	for rounds = 0; rounds < maxRounds && time.Since(start) < budget; rounds++ {
+		if rounds%20000 == 19999 {
+			// a fresh index now and then keeps it below the "full index" threshold
+			mi.Store(index.NewMasterIndex())
+		}
+		m := mi.Load()
+		hs := make([]restic.BlobHandle, blobsPerPack)
+		blobs := make(pack.Blobs, blobsPerPack)
+		for i := range hs {
+			var id restic.ID
+			copy(id[:], rng.bytes(32))
+			t := restic.DataBlob
+			if rng.intn(4) == 0 {
+				t = restic.TreeBlob
+			}
+			hs[i] = restic.BlobHandle{ID: id, Type: t}
+			if !m.AddPending(hs[i], 100) {
+				never++ // a brand-new handle must be accepted
+			}
+			blobs[i] = pack.Blob{BlobHandle: hs[i], Length: 132, Offset: uint(i) * 132}
+		}
+		handles += len(hs)
+		cur.Store(&c16StressCur{m: m, hs: hs})
+		var pid restic.ID
+		copy(pid[:], rng.bytes(32))
+		if err := m.StorePack(context.Background(), pid, blobs, c16NullSaver{}); err != nil {
+			never++
+		}
+	}
+	stop.Store(true)
+	wg.Wait()
+	maxU, twice := 1, 0
+	if handles == 0 {
+		maxU = 0
+	}
+	extra.Range(func(_, v any) bool {
+		n := int(v.(*atomic.Int32).Load())
+		if n > 0 {
+			twice++
+		}
+		if 1+n > maxU {
+			maxU = 1 + n
+		}
+		return true
+	})
+	c.Hist(fmt.Sprintf("stress-spinners=%d", spinners))
+	c.Case("index-stress", true, 1,
+		fmt.Sprintf("CStress %s %s %s %s", coqN(uint64(rounds)), coqN(uint64(handles)), coqN(uint64(maxU)), coqN(uint64(never))),
+		fmt.Sprintf("real MasterIndex: %d rounds AddPending+StorePack (%d blobs per pack) against %d spinning re-submitters in %.1fs -> handles accepted twice: %d (max 'not known' answers per handle %d), new handles refused: %d",
+			rounds, blobsPerPack, spinners, time.Since(start).Seconds(), twice, maxU, never))
+}
+
 func engineC16(c *vctx) error {
 	c.Header("Model.C16m", "C16m.case", "C16m.check_case")
 	c.Preamble("Import C16m.")
@@ -459,6 +557,12 @@ func engineC16(c *vctx) error {
 		if err := c16ApiCase(c, fmt.Sprintf("api%d", i), g, npool, bigEvery, workers, ncalls, dupPct, i%2 == 1 && !lockstep, lockstep); err != nil {
 			return err
 		}
+	}
+	// index-level stress (quick: 3 runs of ~4 s)
+	for i, cfg := range [][2]int{{2, 1}, {4, 1}, {3, 3}} {
+		budget := time.Duration(c.n(4, 20)) * time.Second
+		c16Stress(c, rng.fork(), cfg[0], cfg[1], budget, c.n(600000, 3000000))
+		_ = i
 	}
 	nc := c.n(6, 40)
 	for i := 0; i < nc; i++ {
